@@ -51,7 +51,7 @@ def run(ctx):
     for i, (cfg, data) in enumerate(pairs):
         cases.append(mkcase('A%d' % i, cfg, data))
         # same configuration, options in another order on the command line
-        c2 = mkcase('P%d' % i, cfg, data); c2['args'] = lib.permute_args(lib.cfg_args(cfg), rnd); cases.append(c2)
+        c2 = mkcase('P%d' % i, cfg, data); c2['args'] = lib.spell_args(lib.permute_args(lib.cfg_args(cfg), rnd), rnd); cases.append(c2)
         if cfg['filter'] is not None and cfg['split'] is None and not cfg['set'] and not cfg['only_objs']:
             cases.append(mkcase('F%d' % i, lib.new_cfg(filter=cfg['filter']), data))     # filter alone
     impl, model, mism = common.correspond(cases)
@@ -69,7 +69,7 @@ def run(ctx):
             violations.append({'property': 'C03', 'relation': 'run completes', 'args': lib.cfg_args(cfg), 'stdin_hex': data.hex(), 'observed': a['result'] + ' ' + a['msg']}); continue
         checked += 1
         if (a['result'], a['stdout']) != (p['result'], p['stdout']):
-            violations.append({'property': 'C03', 'relation': 'output independent of option order on the command line',
+            violations.append({'property': 'C03', 'relation': 'output independent of option order and option spelling (aliases, short forms, = or blank) on the command line',
                                'args': lib.cfg_args(cfg), 'args2': cases[[c['id'] for c in cases].index('P%d' % i)]['args'],
                                'stdin_hex': data.hex(), 'stdin': data.decode('utf8', 'replace'),
                                'observed': p['stdout'].decode('utf8', 'replace'), 'expected': a['stdout'].decode('utf8', 'replace')})
